@@ -92,3 +92,11 @@ Example C19_source_example :
     (match ImpGen.imp_newick_Node_traverse 20 (ImpProofsI.node_of t) false with GoSem.Ret l => l | _ => [] end)
   = [bs "c"; bs "a"; bs "b"; bs "r"].
 Proof. vm_compute. split; reflexivity. Qed.
+
+(* ---- the two orders, about the translated source -------------------------------------------------------- *)
+From Bio.Proofs Require ImpProofsW.
+Theorem C19_orders_are_source : forall fuel t, (2 * size t + 2 < fuel)%nat ->
+  ImpGen.imp_newick_Node_traverse fuel (ImpProofsI.node_of t) true = GoSem.Ret (map ImpProofsI.nd (preorder t))
+  /\ ImpGen.imp_newick_Node_traverse fuel (ImpProofsI.node_of t) false = GoSem.Ret (map ImpProofsI.nd (postorder t)).
+Proof. exact ImpProofsW.traverse_orders_src. Qed.
+Print Assumptions C19_orders_are_source.
